@@ -60,11 +60,14 @@ pub struct Ctx {
   pub taps: Arc<Mutex<TapCounts>>,
   /// inner observables of flat_map / on_error_resume_next that refer to sources by index
   pub allow_threads: bool,
+  /// when set, every inner observable a flat_map creates is wrapped in a probe stage whose log
+  /// is appended here (in creation order)
+  pub inner_probes: Option<Arc<Mutex<Vec<Arc<Mutex<ProbeLog>>>>>>,
 }
 
 impl Ctx {
   pub fn new(srcs: Vec<Observable<'static, Val>>) -> Ctx {
-    Ctx { srcs, token: None, probes: Arc::new(Mutex::new(Vec::new())), taps: Arc::new(Mutex::new(TapCounts::default())), allow_threads: false }
+    Ctx { srcs, token: None, probes: Arc::new(Mutex::new(Vec::new())), taps: Arc::new(Mutex::new(TapCounts::default())), allow_threads: false, inner_probes: None }
   }
 }
 
@@ -130,19 +133,27 @@ fn ints(j: Option<&Json>) -> Vec<i64> {
   }
 }
 
-/// inner observable family for flat_map / on_error_resume_next: a mod 6
+/// inner observable family for flat_map / on_error_resume_next: a mod 7
 fn inner_obs(ctx_srcs: &[Observable<'static, Val>], a: i64, x: i64) -> Observable<'static, Val> {
-  match a.rem_euclid(6) {
+  match a.rem_euclid(7) {
     0 => observables::just(Val::Int(x * 10)),
     1 => observables::from_iter(vec![Val::Int(x * 10), Val::Int(x * 10 + 1)].into_iter()),
     2 => observables::empty(),
     3 => observables::error(mk_err(900 + x.rem_euclid(10))),
     4 => observables::never(),
-    _ => {
+    5 => {
       if ctx_srcs.is_empty() {
         observables::just(Val::Int(x * 10))
       } else {
-        ctx_srcs[(a / 6).rem_euclid(ctx_srcs.len() as i64) as usize].clone()
+        ctx_srcs[(a / 7).rem_euclid(ctx_srcs.len() as i64) as usize].clone()
+      }
+    }
+    _ => {
+      // a different (hot) source per item: sources 1.. chosen by the item
+      if ctx_srcs.len() < 2 {
+        observables::just(Val::Int(x * 10))
+      } else {
+        ctx_srcs[1 + x.rem_euclid(ctx_srcs.len() as i64 - 1) as usize].clone()
       }
     }
   }
@@ -331,9 +342,18 @@ pub fn build(j: &Json, ctx: &Ctx) -> Option<Observable<'static, Val>> {
     "map_to_any" => o.map_to_any().map(|x| x.downcast_ref::<Val>().cloned().unwrap_or(Val::Unit)),
     "flat_map" => {
       let srcs = ctx.srcs.clone();
+      let ip = ctx.inner_probes.clone();
       o.flat_map(move |x: Val| {
         let _t = &tok;
-        inner_obs(&srcs, a, x.int())
+        let inner = inner_obs(&srcs, a, x.int());
+        match &ip {
+          Some(ip) => {
+            let log = Arc::new(Mutex::new(ProbeLog::default()));
+            ip.lock().unwrap().push(log.clone());
+            probe_stage(inner, log)
+          }
+          None => inner,
+        }
       })
     }
     "on_error_resume_next" => {
@@ -512,8 +532,12 @@ pub fn sources_used(j: &Json, nsrc: usize, out: &mut Vec<usize>) {
     out.push(i as usize);
   }
   if let Some(op) = j.get("op").and_then(|x| x.as_str()) {
-    if (op == "flat_map" || op == "on_error_resume_next") && j.i("a").rem_euclid(6) == 5 && nsrc > 0 {
-      out.push((j.i("a") / 6).rem_euclid(nsrc as i64) as usize);
+    if (op == "flat_map" || op == "on_error_resume_next") && nsrc > 0 {
+      match j.i("a").rem_euclid(7) {
+        5 => out.push((j.i("a") / 7).rem_euclid(nsrc as i64) as usize),
+        6 => out.extend(1..nsrc),
+        _ => {}
+      }
     }
   }
   for k in ["in", "by"] {
